@@ -144,6 +144,68 @@ def run(rep):
                                "class": "history|%s|%s|after=%s" % (what, st.get("outcome"), ",".join(x["call"] for x in c["hist"][:k])[-60:])})
                 break
     random_trace(rep, base, 100 if quick else 1500)
+    families_under_separators(rep)
+
+
+def families_under_separators(rep):
+    """a user-defined family converts along its declared chain under every separator configuration, whether it was registered
+    before or after the separators were set; step codes are written in the code notation ('.' decimal point), also with
+    fractional literals.  Validated by TLC (set_dec / set_tho / add_type / add_type_item / execute events)."""
+    from fractions import Fraction
+
+    def dcode(r, frac):
+        fr = q_to_fraction(r)
+        if frac and fr.denominator in (2, 4, 5, 10, 20, 25) and fr.numerator == 1:
+            return "{value} * %s" % str(float(fr))                      # 0.25, 0.2, 0.5
+        if frac and fr.denominator == 1 and fr.numerator in (4, 5):
+            return "{value} / %s" % str(float(Fraction(1, fr.numerator)))   # / 0.25, / 0.2
+        return code(r)
+    items = [{"idx": 1, "up": [1, 4, 0], "down": [1, 1, 0]}, {"idx": 2, "up": [1, 5, 0], "down": [4, 1, 0]}, {"idx": 3, "up": [1, 1, 0], "down": [5, 1, 0]}]
+    lines = [{"form": "fam_conv", "fam": "zorps", "q": q, "a": a, "b": b} for q in ([40, 1, 0], [5, 2, 0], [1234, 1, 0]) for a, b in ((1, 2), (3, 1), (1, 3), (2, 1), (2, 3))]
+    cases, metas = [], []
+    for (d, t) in render.SEP_CONFIGS:
+        for first in ("register", "separators"):
+            for frac in (False, True):
+                reg = [("add_type", {"op": "add_type", "name": "zorps"}, {"ev": "add_type", "name": "zorps"})]
+                for it in items:
+                    nm = ITEM_NAMES[it["idx"]]
+                    reg.append(("add_type_item", {"op": "add_type_item", "name": "zorps", "index": it["idx"], "format": "{value} " + nm,
+                                                  "parse": ["{NUMBER:value} {TEXT:type:%s}" % nm], "up": dcode(it["up"], frac), "down": dcode(it["down"], frac), "names": [nm]},
+                                {"ev": "add_type_item", "fam": "zorps", "idx": it["idx"], "up": it["up"], "down": it["down"]}))
+                sep = [("set", {"op": "set_dec", "v": d}, {"ev": "set_dec", "v": d}), ("set", {"op": "set_tho", "v": t}, {"ev": "set_tho", "v": t})]
+                seq = (reg + sep) if first == "register" else (sep + reg)
+                for l in lines:
+                    text = "%s %s to %s" % (render.number_text(render.q_fraction(l["q"]), d, t), ITEM_NAMES[l["a"]], ITEM_NAMES[l["b"]])
+                    seq = seq + [("execute", {"op": "execute", "lang": "en", "text": text}, {"ev": "execute", "lang": "en", "lines": [l]})]
+                cases.append({"id": "fs%d" % len(cases), "cfg": CFG, "fresh": True, "steps": [x[1] for x in seq]})
+                metas.append((seq, {"dec": d, "tho": t, "first": first, "fractional_codes": frac}))
+    obs = run_harness_stable_day(cases, "c18.seps", jobs=8)
+    events, index = [], []
+    for case, (seq, info), o in zip(cases, metas, obs):
+        events.append(reset_event(CFG, o.get("day0", 0)))
+        index.append(None)
+        steps = o.get("steps") or []
+        for k, (kind, step, ev) in enumerate(seq):
+            st = steps[k] if k < len(steps) else o
+            if st.get("outcome") == "skipped":
+                break
+            e = dict(ev)
+            if kind in ("add_type", "add_type_item"):
+                e["ret"] = ("true" if st.get("ret") else "false") if st.get("outcome") == "returned" else "panic"
+            elif kind == "execute":
+                ss = proj.slots_of_step(st)
+                status, slots = (True, [{"k": st.get("outcome", "panic")}]) if ss is None else ss
+                e.update({"status": status, "obs": [proj.trace_slot(x) for x in slots]})
+            events.append(e)
+            index.append((case, k, st, info))
+            if kind == "execute":
+                rep.case([case["id"], k], True)
+    bad = validate_trace(rep, events, "c18.seps")
+    for b in bad:
+        case, k, st, info = index[b["l"] - 1]
+        rep.violation({"check": "trace", "form": "history", "case": case, "step": k, "expected": b["expected"], "observed": st,
+                       "feat": dict(info, form="history", what="family_under_separators", failure="wrong"),
+                       "class": "family-under-separators|dec=%s|tho=%s|first=%s|fractional_codes=%s" % (info["dec"], info["tho"], info["first"], info["fractional_codes"])})
 
 
 def random_trace(rep, base, nhist):
